@@ -64,7 +64,8 @@ HasErrors == Present # {} \/ ownSrc
 HasXErrors == \E s \in Present : SrcCat[s].axis = "x"
 HasModelRel == \E s \in Present : SrcCat[s].ref = "model" /\ SrcCat[s].rel /\ SrcCat[s].axis = "y"
 IdealDiagonal == \A s \in On : SrcCat[s].diag            \* is the total covariance matrix diagonal?
-PosDef == On # {} \/ ownSrc                              \* restriction of C03: some enabled source whenever any is declared
+PosDef == (\E s \in On : s # "ex2") \/ ownSrc   \* ex2 is fully correlated: singular on its own
+PosDefOld == On # {} \/ ownSrc                              \* restriction of C03: some enabled source whenever any is declared
 (* A covariance-based chi2 is in use (the fit left the no-errors cost function for good when its first source was  *)
 (* declared) but no enabled source is left: the total covariance is singular -- excluded by the statement of C03. *)
 NeedsCov == GCostNoErr # "-" /\ ~implicitNoErr
@@ -121,7 +122,9 @@ Init ==
 
 (* FitBase._on_error_change: reset minimiser, mark the basic error nodes, leave the no-errors cost function *)
 ErrorChange(st) == MarkFrom(GBasic, st)
-SwitchCost == IF implicitNoErr THEN GCostCov ELSE costNode
+(* leave the no-errors cost function for good; leave the pointwise cost function chosen by the last fit (it ignores correlations) *)
+SwitchCost == IF implicitNoErr THEN GCostCov
+              ELSE IF costNode = GCostPoint /\ GCostPoint # "-" /\ "pointwise_kept" \notin Faults THEN GCostCov ELSE costNode
 
 SourceEdit(s, newStatus, nm) ==
   /\ LET c == IF SrcCat[s].ref = "data" THEN "Sd" ELSE "Sm"
@@ -192,7 +195,7 @@ SetData(d) ==
   /\ LET marks == IF "data_no_error_marks" \in Faults THEN GDataNodes ELSE GDataNodes \cup GBasic
          sw == implicitNoErr /\ d = "d2"
      IN /\ stale' = MarkFrom(marks, stale)
-        /\ costNode' = IF sw THEN GCostCov ELSE costNode
+        /\ costNode' = IF sw THEN GCostCov ELSE IF implicitNoErr THEN costNode ELSE SwitchCost
         /\ implicitNoErr' = IF sw THEN FALSE ELSE implicitNoErr
   /\ act' = [name |-> "SetData", d |-> d] /\ obs' = [kind |-> "none"]
   /\ UNCHANGED <<frozen, cons, pidx, fixed, limited, didFit>>
@@ -313,6 +316,7 @@ NothingPinnedAfterFit == \A n \in GNodes : ~frozen[n]
 CostNodeSelection ==
   /\ implicitNoErr => (Present = {} /\ ~ownSrc)
   /\ (GCostNoErr # "-" /\ costNode = GCostNoErr) => implicitNoErr
+  /\ (GCostPoint # "-" /\ costNode = GCostPoint) => IdealDiagonal      \* the pointwise cost is only ever read while no enabled source is correlated
 
 ReadsAreSilent ==
   [][act'.name = "Read" => UNCHANGED <<status, cons, pidx, fixed, limited, dataSet, didFit, ownSrc, costNode, implicitNoErr, frozen>>]_vars
